@@ -34,7 +34,7 @@ m = dict(version=1, setup_cmd="./setup.sh",
                     baseline_off_cmd="cd /repo && GOFLAGS=-mod=mod GOPROXY=off GOSUMDB=off GOTOOLCHAIN=local go test -vet=off -count=1 ./...",
                     source_commits=hooks, add_only=True),
          engines=[dict(name="lean4+differential", path="lean/ go/harness go/extract go/translate check.py decide.py props.py", serves_properties=[c["property_id"] for c in checks],
-                       kind_free_text="Lean 4 model + theorems (lake project, core only), go/ast fact extractor regenerating Pw/Generated/Facts.lean, Go-to-Lean translator (go/translate) regenerating Pw/Generated/Trans*.lean from pkg/buffer, copy.go, error.go, writer.go/row.go and cache.go with tie theorems against the model, Go differential harness driving the real server in-process, Lean line-protocol driver evaluating model and property oracles")],
+                       kind_free_text="Lean 4 model + theorems (lake project, core only), go/ast fact extractor regenerating Pw/Generated/Facts.lean, Go-to-Lean translator (go/translate) regenerating Pw/Generated/Trans*.lean from pkg/buffer, copy.go, error.go, writer.go/row.go, cache.go and handshake.go with tie theorems against the model, Go differential harness driving the real server in-process, Lean line-protocol driver evaluating model and property oracles")],
          checks=checks,
          notes="All checks: ./check.py <id> <quick|thorough>; VERIF_SEED selects the PRNG seed. See DESIGN.md.",
          not_applicable=na)
